@@ -348,8 +348,8 @@ fn run_ops(ops: &[Op], slots: usize) -> (Result<(), String>, Flags) {
     (Ok(()), fl)
 }
 
-const NAMES: &[&str] = &["a", "b", "c", "d", "type", "ns:e", "e", "p:a", "vec", "vec2", "a2"];
-const ATTRS: &[&str] = &["id", "k", "type", "x:y", "xmlns:n", "a"];
+const NAMES: &[&str] = &["a", "b", "c", "d", "type", "ns:e", "e", "p:a", "vec", "vec2", "a2", "año:f"];
+const ATTRS: &[&str] = &["id", "k", "type", "x:y", "xmlns:n", "a", "ñ:w"];
 const TEXTS: &[&str] = &["t", "", " "];
 
 /// paths and names are decoded against the current model so that most operations hit existing nodes
